@@ -13,7 +13,8 @@ THEOREMS = ["Poor.Props.C04.abort_user_handler", "Poor.Props.C04.abort_builtin_p
             "Poor.Props.C04.abort_special", "Poor.Props.C04.first_matching_handler",
             "Poor.Props.C04.exception_user_handler", "Poor.Props.C04.exception_unhandled",
             "Poor.Props.C04.status_handler_failure", "Poor.Props.C04.status_handler_garbage",
-            "Poor.Props.C04.exception_handler_failure", "Poor.Props.C04.C04_after_independent"]
+            "Poor.Props.C04.exception_handler_failure", "Poor.Props.C04.C04_after_independent",
+            "Poor.Props.C04.status_handler_aborts", "Poor.Props.C04.status_handler_aborts_special"]
 TRUSTED_BASE = ["model Poor.Wsgi (state_from_table, error_from_table, the except clauses of __request__)",
                 "exception classes are modelled by ids with isinstance as a fixed relation (base, derived, unrelated, Exception)"]
 ASSUMPTIONS = ["abort(0) declines and abort(200) yields an empty 204: the two special codes of HTTPException.make_response"]
